@@ -250,9 +250,9 @@ func runC05(r *core.Run) {
 			return core.Outcome{Class: "ok", Nontrivial: true, Evals: 3}
 		})
 
-	core.Clause(r, "whole-number-distances", core.Opts{Rule: "every listed whole-number distance (integer-type and 2^53 boundaries, both signs) on the leaf, inner node and root of a 3-node tree; non-trivial = all"},
+	core.Clause(r, "whole-number-distances", core.Opts{Rule: "every listed whole-number distance (integer-type and 2^53 boundaries, both signs) and 40 sharp fractional ones (exactly-float32 values such as float64(float32(0.1)) and MaxFloat32, neighbours of 1, smallest normal, 1e21/1e22, notation-switch magnitudes) on the leaf, inner node and root of a 3-node tree; non-trivial = all"},
 		func(emit func(nwTree) bool) {
-			for _, d := range nwWholeDists {
+			for _, d := range append(append([]string{}, nwWholeDists...), sharpFloats()...) {
 				for pos := 0; pos < 3; pos++ {
 					t := defaultNwTree([]int{1, 1, 0})
 					t.Dists[pos] = d
@@ -318,6 +318,9 @@ func runC05(r *core.Run) {
 			}
 			return core.Outcome{Class: c.Kind, Nontrivial: c.N >= 2, Evals: 3}
 		})
+
+	interleavedReadersFor(r, []string{"newick"})
+	bigFiles(r, "newick", []int{0})
 
 	r.Bound("marked-offsets", markBounds+" (here: the name of one leaf of a 3-node tree followed by a second tree); bytes ' ( _"+core.Pick(r, "", " and ) , : ; space TAB LF [ 0x00 0xFF"))
 	core.Clause(r, "marked-offsets", core.Opts{Rule: "a byte of the Newick vocabulary at EVERY offset of a long name (the one byte that forces quoting / must be escaped meets every internal buffer boundary of reader and writer); written, read back, the following tree must still be read; non-trivial = all"},
